@@ -592,7 +592,16 @@ def classify_valuesets(body, kind, ginfo, unrec, where):
     for mm in re.finditer(r"\$crate::__tracing_log!\(|\$crate::if_log_enabled!\{", wb):
         o = mm.end() - 1
         c = match_brace(wb, o, wb[o], ")" if wb[o] == "(" else "}")
-        logregions.append((o, c))
+        if wb[o] == "(":
+            # __tracing_log!($lvl, __CALLSITE, <value set>): only the third argument is an expression of ours
+            args = wb[o + 1:c]
+            if not args.startswith("$lvl,__CALLSITE,"):
+                unrec.append("%s: __tracing_log! arguments `%s`" % (where, args[:60]))
+            logregions.append((o, c, "InTracingLog"))
+        else:
+            if not wb[o + 1:c].startswith("$lvl,{"):
+                unrec.append("%s: if_log_enabled! arguments" % where)
+            logregions.append((o, c, "InIfLog"))
     out = []
     for mm in re.finditer(r"\$crate::valueset!\(", wb):
         i = mm.start()
@@ -602,15 +611,136 @@ def classify_valuesets(body, kind, ginfo, unrec, where):
             br = "InElse"
         else:
             br = "Outside"
-        lg = any(o < i < c for o, c in logregions)
+        lgs = [k for o, c, k in logregions if o < i < c]
+        if len(lgs) > 1:
+            unrec.append("%s: nested log-only macros" % where)
         # the field tokens must be passed through unchanged
         o = mm.end() - 1
         c = match_brace(wb, o, "(", ")")
         arg = wb[o + 1:c]
         if arg not in ("meta.fields(),$($fields)*", "__CALLSITE.metadata().fields(),$($fields)*"):
             unrec.append("%s: valueset! arguments `%s`" % (where, arg[:60]))
-        out.append("(%s, %s)" % (br, "true" if lg else "false"))
+        out.append("(%s, %s)" % (br, lgs[0] if lgs else "NoLog"))
     return g, out
+
+
+LOGMODES = {'#[cfg(not(feature="log"))]': ["LogOff"], '#[cfg(feature="log")]': ["LogOn", "LogAlways"],
+            '#[cfg(all(feature="log",not(feature="log-always")))]': ["LogOn"],
+            '#[cfg(all(feature="log",feature="log-always"))]': ["LogAlways"]}
+LOG_LETS = ["use$crate::log;", "letlevel=$crate::level_to_log!($level);",
+            "letlog_meta=log::Metadata::builder().level(level).target(__CALLSITE.metadata().target()).build();",
+            "letlogger=log::logger();"]
+LOG_CONDS = {"$crate::level_to_log!($lvl)<=$crate::log::STATIC_MAX_LEVEL": ("LStaticOk", []),
+             "!$crate::dispatch::has_been_set()": ("LNoDispatchEver", []),
+             "level<=log::max_level()": ("LMaxLevelOk", [LOG_LETS[1]]),
+             "logger.enabled(&log_meta)": ("LLoggerEnabled", [LOG_LETS[1], LOG_LETS[2], LOG_LETS[3]])}
+
+
+def parse_ifs(s, lets):
+    """`[let..;]* if C1 { [let..;]* if C2 { LEAF } [else {E2}] } [else {E1}]`  ->  ([C1, C2], LEAF, [E1, E2]) (None = no else);
+    the allowed `let`/`use` statements met on the way are appended to `lets`."""
+    again = True
+    while again:
+        again = False
+        for l in LOG_LETS:
+            if s.startswith(l):
+                lets.append(l)
+                s = s[len(l):]
+                again = True
+    if not s.startswith("if"):
+        return [], s, []
+    ob, depth = 2, 0
+    while ob < len(s) and not (s[ob] == "{" and depth == 0):
+        depth += s[ob] in "(["
+        depth -= s[ob] in ")]"
+        ob += 1
+    if ob >= len(s):
+        return None
+    cb = match_brace(s, ob)
+    rest = s[cb + 1:]
+    els = None
+    if rest.startswith("else{"):
+        ecb = match_brace(rest, 4)
+        els = rest[5:ecb]
+        rest = rest[ecb + 1:]
+    if rest:
+        return None
+    sub = parse_ifs(s[ob + 1:cb], lets)
+    if sub is None:
+        return None
+    return [s[2:ob]] + sub[0], sub[1], [els] + sub[2]
+
+
+def log_conds(conds, lets, unrec, where):
+    out = []
+    for c in conds:
+        if c not in LOG_CONDS or any(l not in lets for l in LOG_CONDS[c][1]):
+            unrec.append("%s: condition `%s`" % (where, c[:70]))
+            return None
+        out.append(LOG_CONDS[c][0])
+    return out
+
+
+def tr_log_macros(mr, unrec, G):
+    """`if_log_enabled!` and `__tracing_log!` under each feature set: when does the log-only code run / evaluate its
+    value-set argument?  None = the macro expands to nothing (or to its else block)."""
+    iflog, tlog = {}, {}
+    for attrs, arms in macro_arms(mr, "if_log_enabled"):
+        modes = LOGMODES.get(ws("".join(a for a in attrs if "cfg" in a)))
+        if not modes or not arms or len(arms) != 3 or \
+                [(ws(p), ws(b)) for p, b in arms[:2]] != [("$lvl:expr,$e:expr;", "$crate::if_log_enabled!{$lvl,$e}"),
+                                                          ("$lvl:expr,$if_log:block", "$crate::if_log_enabled!{$lvl,$if_logelse{}}")] or \
+                ws(arms[2][0]) != "$lvl:expr,$if_log:blockelse$else_block:block":
+            unrec.append("if_log_enabled! definition under %s" % ws("".join(attrs))[:60])
+            continue
+        body = ws(arms[2][1])
+        if body == "$else_block":
+            r = None
+        else:
+            lets = []
+            pr = parse_ifs(body, lets)
+            r = None
+            if pr is None or pr[1] not in ("$if_log", "#[allow(unused_braces)]$if_log") or any(e != "$else_block" for e in pr[2]) or lets:
+                unrec.append("if_log_enabled! body under %s" % modes)
+                continue
+            r = log_conds(pr[0], lets, unrec, "if_log_enabled! %s" % modes)
+            if r is None:
+                continue
+        for m in modes:
+            iflog[m] = r
+    for attrs, arms in macro_arms(mr, "__tracing_log"):
+        modes = LOGMODES.get(ws("".join(a for a in attrs if "cfg" in a)))
+        if not modes or not arms or len(arms) != 1 or ws(arms[0][0]) != "$level:expr,$callsite:expr,$value_set:expr":
+            unrec.append("__tracing_log! definition under %s" % ws("".join(attrs))[:60])
+            continue
+        body = ws(arms[0][1])
+        if body == "":
+            r = None
+        else:
+            m = re.fullmatch(r"\$crate::if_log_enabled!\{\$level,\{(.*)\}\}", body)
+            lets = []
+            pr = parse_ifs(m.group(1), lets) if m else None
+            if pr is None or pr[1] != "$callsite.log(logger,log_meta,$value_set)" or any(e is not None for e in pr[2]) or body.count("$value_set") != 1:
+                unrec.append("__tracing_log! body under %s" % modes)
+                continue
+            r = log_conds(pr[0], lets, unrec, "__tracing_log! %s" % modes)
+            if r is None:
+                continue
+        for m in modes:
+            tlog[m] = r
+    for name, tbl in (("if_log_enabled!", iflog), ("__tracing_log!", tlog)):
+        if set(tbl) != {"LogOff", "LogOn", "LogAlways"}:
+            unrec.append("%s: definitions for %s only" % (name, sorted(tbl)))
+        elif tbl["LogOff"] is not None:
+            unrec.append("%s is not empty with the `log` feature off" % name)
+
+    def row(tbl):
+        return "[" + "; ".join("(%s, %s)" % (m, "None" if tbl.get(m) is None else "Some [%s]" % "; ".join(tbl[m]))
+                               for m in ("LogOff", "LogOn", "LogAlways") if m in tbl) + "]"
+    G.append("(* if_log_enabled! { lvl, block }: conditions under which the block runs, per feature set (None: never) *)")
+    G.append("Definition gen_if_log : list (logmode * option (list lcond)) := %s." % row(iflog))
+    G.append("(* __tracing_log!(lvl, callsite, value_set): further conditions (inside if_log_enabled!) under which `value_set` is evaluated *)")
+    G.append("Definition gen_tracing_log_arg : list (logmode * option (list lcond)) := %s." % row(tlog))
 
 
 def tr_bodies(mr, lib, unrec, G):
@@ -634,14 +764,7 @@ def tr_bodies(mr, lib, unrec, G):
     if not ginfo.is_enabled_ok:
         unrec.append("MacroCallsite::is_enabled body")
     guards = []       # (where, guard) of every base arm
-    a = pick_def(macro_arms(mr, "__tracing_log"))
-    if not a or [(ws(p), ws(b)) for p, b in a] != [("$level:expr,$callsite:expr,$value_set:expr", "")]:
-        unrec.append("__tracing_log! (log feature off) is not empty")
-    a = pick_def(macro_arms(mr, "if_log_enabled"))
-    if not a or [(ws(p), ws(b)) for p, b in a] != [("$lvl:expr,$e:expr;", "$crate::if_log_enabled!{$lvl,$e}"),
-                                                     ("$lvl:expr,$if_log:block", "$crate::if_log_enabled!{$lvl,$if_logelse{}}"),
-                                                     ("$lvl:expr,$if_log:blockelse$else_block:block", "$else_block")]:
-        unrec.append("if_log_enabled! (log feature off) does not reduce to its else block")
+    tr_log_macros(mr, unrec, G)
     fwdmap = {}       # (mkind, input prefix set) -> set of output prefix sets of its forwarding arms
 
     def strip_frag(s):
@@ -858,8 +981,8 @@ def tr_bodies(mr, lib, unrec, G):
             frows.append("(%s, %s, %s)" % (k, coq_str(pin), coq_str(o)))
     G.append("(* forwarding arms that change the prefix set: (macro, written prefixes, prefixes of the arm they call) *)")
     G.append("Definition gen_prefix_forward : list (mkind * string * string) :=\n  [ " + "\n  ; ".join(frows) + " ].")
-    G.append("(* base arms: (macro, prefixes, where each valueset! sits = (branch, inside a log-only macro?), how it dispatches) *)")
-    G.append("Definition gen_bodies : list (mkind * string * list (branch * bool) * dispatch) :=\n  [ " + "\n  ; ".join(rows) + " ].")
+    G.append("(* base arms: (macro, prefixes, where each valueset! sits = (branch, inside which log-only macro), how it dispatches) *)")
+    G.append("Definition gen_bodies : list (mkind * string * list (branch * logwrap) * dispatch) :=\n  [ " + "\n  ; ".join(rows) + " ].")
     G.append("(* event!(.., { fields }, fmt-args) arms: where the message field is put *)")
     G.append("Definition gen_brace_fmt : list (string * msgpos) :=\n  [ " + "\n  ; ".join(brace) + " ].")
     G.append("(* arms that only pass their tokens on (event!/span! non-base arms and the ten level shorthands): recognised / total *)")
@@ -964,7 +1087,8 @@ def main(repo, out):
                            ("gen_nonzero_names", "list (prim * string)", "[]"), ("gen_hand_rows", "list (hty * hbody)", "[]"),
                            ("gen_wrapper_fmt", "list (wrapper * ftrait * fmtimpl)", "[]"),
                            ("gen_valueset_arms", "list (armpat * vemit * cont)", "[]"), ("gen_fieldset_arms", "list (armpat * femit * cont)", "[]"),
-                           ("gen_guard", "list gconj", "[]"), ("gen_prefix_forward", "list (mkind * string * string)", "[]"), ("gen_bodies", "list (mkind * string * list (branch * bool) * dispatch)", "[]"),
+                           ("gen_guard", "list gconj", "[]"), ("gen_prefix_forward", "list (mkind * string * string)", "[]"), ("gen_bodies", "list (mkind * string * list (branch * logwrap) * dispatch)", "[]"),
+                           ("gen_if_log", "list (logmode * option (list lcond))", "[]"), ("gen_tracing_log_arg", "list (logmode * option (list lcond))", "[]"),
                            ("gen_brace_fmt", "list (string * msgpos)", "[]"), ("gen_forwarders", "N * N", "(0, 1)"),
                            ("gen_vs_record_checks_callsite", "bool", "false"), ("gen_vs_record_skips_none", "bool", "false"),
                            ("gen_span_record_uses_as_field", "bool", "false"), ("gen_as_field", "list (asfield_impl * asfield_how)", "[]")):
